@@ -61,10 +61,22 @@ func (r *recRuntime) UpdateStreamServers(string, []ngxclient.StreamUpstreamServe
 type recStatus struct {
 	calls  int
 	groups map[string][]frameworkStatus.UpdateRequest
+	trace  *[]traceEnt
+}
+
+// traceEnt is one observable action of the real handler, in the order it happened: a Capture…Change call on the
+// change processor, an UpdateGroup call on the status updater, the Process call.
+type traceEnt struct {
+	what string // "cap" / "grp" / "process"
+	name string // grp: the group
+	ev   int    // cap: index into peekProc.log
 }
 
 func (r *recStatus) UpdateGroup(_ context.Context, name string, reqs ...frameworkStatus.UpdateRequest) {
 	r.calls++
+	if r.trace != nil {
+		*r.trace = append(*r.trace, traceEnt{what: "grp", name: name})
+	}
 	if r.groups == nil {
 		r.groups = map[string][]frameworkStatus.UpdateRequest{}
 	}
@@ -99,27 +111,32 @@ type peekProc struct {
 	real   *state.ChangeProcessorImpl
 	log    []EvRec
 	lastCT int // change type returned by the last Process() (-1: Process not reached)
+	trace  *[]traceEnt
 }
 
 func (q *peekProc) CaptureUpsertChange(obj client.Object) {
 	r := EvRec{Kind: p.KindOf(obj), NN: client.ObjectKeyFromObject(obj)}
 	r.Peek = q.real.VerifC01PeekUpsert(obj)
 	r.Before = q.real.VerifC01Pending()
-	q.real.CaptureUpsertChange(obj)
-	r.Pending = q.real.VerifC01Pending()
+	// logged before the call: a capture that panics (kind not registered with the processor) was still attempted
+	*q.trace = append(*q.trace, traceEnt{what: "cap", ev: len(q.log)})
 	q.log = append(q.log, r)
+	q.real.CaptureUpsertChange(obj)
+	q.log[len(q.log)-1].Pending = q.real.VerifC01Pending()
 }
 
 func (q *peekProc) CaptureDeleteChange(t ngftypes.ObjectType, nn types.NamespacedName) {
 	r := EvRec{Kind: p.KindOf(t), Del: true, NN: nn}
 	r.Peek = q.real.VerifC01PeekDelete(t, nn)
 	r.Before = q.real.VerifC01Pending()
-	q.real.CaptureDeleteChange(t, nn)
-	r.Pending = q.real.VerifC01Pending()
+	*q.trace = append(*q.trace, traceEnt{what: "cap", ev: len(q.log)})
 	q.log = append(q.log, r)
+	q.real.CaptureDeleteChange(t, nn)
+	q.log[len(q.log)-1].Pending = q.real.VerifC01Pending()
 }
 
 func (q *peekProc) Process() (state.ChangeType, *graph.Graph) {
+	*q.trace = append(*q.trace, traceEnt{what: "process"})
 	ct, g := q.real.Process()
 	q.lastCT = int(ct)
 	return ct, g
@@ -139,9 +156,24 @@ type Ctrl struct {
 	recs    map[string]*controller.Reconciler
 	evCh    chan interface{}
 	Panic   string
+	// PanicInCapture: the panic happened before Process was reached (capture phase of HandleEventBatch)
+	PanicInCapture bool
+	trace          []traceEnt
 }
 
 var podConfig = ngfConfig.GatewayPodConfig{PodIP: "10.0.0.1", ServiceName: "ngf-svc", Namespace: "nginx-gateway", Name: "ngf-pod"}
+
+// controlConfig is the NginxGateway object of the controller (StartManager: GatewayPodConfig.Namespace / cfg.ConfigName).
+var controlConfig = types.NamespacedName{Namespace: podConfig.Namespace, Name: "ngf-config"}
+
+// ngfSvcKey / controlConfigKey: the two objects the handler's objectFilters single out.
+var (
+	ngfSvcKey        = p.Key{Kind: "Service", NN: types.NamespacedName{Namespace: podConfig.Namespace, Name: podConfig.ServiceName}}
+	controlConfigKey = p.Key{Kind: "NginxGateway", NN: controlConfig}
+)
+
+// nnFilters: the namespaced-name filters of registerControllers (regenerated table, `-nnfilter`), per kind.
+var nnFilters = map[string]controller.NamespacedNameFilterFunc{}
 
 func policyManager(mustExtractGVK kinds.MustExtractGVK, v validation.GenericValidator) *policies.CompositeValidator {
 	cfgs := []policies.ManagerConfig{
@@ -172,6 +204,7 @@ func NewCtrl(w *World, opts p.Options) *Ctrl {
 	})
 	c := &Ctrl{opts: opts, world: w, proc: &peekProc{real: real}, files: &recFiles{}, rt: &recRuntime{}, st: &recStatus{},
 		recs: map[string]*controller.Reconciler{}, evCh: make(chan interface{}, 4)}
+	c.proc.trace, c.st.trace = &c.trace, &c.trace
 	c.handler = static.VerifC01NewHandler(static.VerifC01Deps{
 		ControllerName: opts.Controller,
 		Generator:      ngxcfg.NewGeneratorImpl(false, nil, logr.Discard()),
@@ -182,10 +215,12 @@ func NewCtrl(w *World, opts p.Options) *Ctrl {
 		StatusUpdater:  c.st,
 		K8sClient:      w.cl,
 		PodConfig:      podConfig,
+
+		ControlConfigNSName: controlConfig,
 	})
 	for _, k := range kindTable {
 		c.recs[k.name] = controller.NewReconciler(controller.ReconcilerConfig{
-			Getter: w.cl, ObjectType: k.bare(), EventCh: c.evCh,
+			Getter: w.cl, ObjectType: k.bare(), EventCh: c.evCh, NamespacedNameFilter: nnFilters[k.name],
 		})
 	}
 	return c
@@ -205,21 +240,52 @@ func (c *Ctrl) Reconcile(key p.Key) (interface{}, error) {
 	case e := <-c.evCh:
 		return e, nil
 	default:
+		if nnFilters[key.Kind] != nil {
+			return nil, nil // ignored by the controller's namespaced-name filter
+		}
 		return nil, fmt.Errorf("reconciler produced no event for %s", key)
 	}
 }
 
+// InRec is one event handed to HandleEventBatch and what parseAndCaptureEvent did with it.
+type InRec struct {
+	Kind   string
+	Del    bool
+	NN     types.NamespacedName
+	Fwd    bool     // the handler called Capture…Change for it
+	Ev     EvRec    // Fwd: what the processor saw
+	Pend   int      // pending changeType after the event
+	Panics bool     // the capture panicked
+}
+
 // BatchObs is what one HandleEventBatch call did.
 type BatchObs struct {
+	In          []InRec
 	Events      []EvRec
 	FileCalls   int
-	StatusCalls int
+	StatusCalls int // UpdateGroup calls after Process (the batch's own status update)
+	CbCalls     int // UpdateGroup calls made by filter callbacks, before Process
+	// EmitRuns: UpdateGroup calls between consecutive Capture…Change calls: one entry per captured event (the calls
+	// since the previous capture) and a last entry for the calls between the last capture and Process. (The handler
+	// offers no boundary between two events, so callbacks of events it keeps to itself cannot be told apart from the
+	// callback of the next captured event; the model's column is folded the same way.)
+	EmitRuns []int
 	Reloads     int
+}
+
+func eventID(e interface{}) (kind string, del bool, nn types.NamespacedName) {
+	switch x := e.(type) {
+	case *events.UpsertEvent:
+		return p.KindOf(x.Resource), false, client.ObjectKeyFromObject(x.Resource)
+	case *events.DeleteEvent:
+		return p.KindOf(x.Type), true, x.NamespacedName
+	}
+	return fmt.Sprintf("%T", e), false, types.NamespacedName{}
 }
 
 // Handle runs the real HandleEventBatch on the batch.
 func (c *Ctrl) Handle(batch events.EventBatch) (obs BatchObs) {
-	f0, s0, r0, l0 := c.files.calls, c.st.calls, c.rt.reloads, len(c.proc.log)
+	f0, s0, r0, l0, t0 := c.files.calls, c.st.calls, c.rt.reloads, len(c.proc.log), len(c.trace)
 	c.proc.lastCT = -1
 	func() {
 		defer func() {
@@ -231,6 +297,54 @@ func (c *Ctrl) Handle(batch events.EventBatch) (obs BatchObs) {
 	}()
 	obs.Events = append(obs.Events, c.proc.log[l0:]...)
 	obs.FileCalls, obs.StatusCalls, obs.Reloads = c.files.calls-f0, c.st.calls-s0, c.rt.reloads-r0
+	// attribute the handler's actions of the capture phase (everything before Process) to the input events, in order:
+	// per event [callback: UpdateGroup*] [Capture…Change of that very (kind, op, name)]
+	tr := c.trace[t0:]
+	i := 0
+	pend := 0 // Process resets the pending changeType; a new controller starts with NoChange
+	run := 0
+	if c.Panic != "" {
+		c.PanicInCapture = true
+		for _, te := range tr {
+			if te.what == "process" {
+				c.PanicInCapture = false
+			}
+		}
+	}
+	for _, te := range tr {
+		if te.what == "process" {
+			break
+		}
+		switch te.what {
+		case "grp":
+			obs.CbCalls++
+			run++
+		case "cap":
+			obs.EmitRuns = append(obs.EmitRuns, run)
+			run = 0
+		}
+	}
+	obs.EmitRuns = append(obs.EmitRuns, run)
+	for _, e := range batch {
+		in := InRec{}
+		in.Kind, in.Del, in.NN = eventID(e)
+		for i < len(tr) && tr[i].what == "grp" {
+			i++ // a filter callback issued a status group (counted in EmitRuns)
+		}
+		if i < len(tr) && tr[i].what == "cap" {
+			if r := c.proc.log[tr[i].ev]; r.Kind == in.Kind && r.Del == in.Del && r.NN == in.NN {
+				in.Fwd, in.Ev = true, r
+				pend = r.Pending
+				i++
+				if i == len(tr) && c.Panic != "" {
+					in.Panics = true
+				}
+			}
+		}
+		in.Pend = pend
+		obs.In = append(obs.In, in)
+	}
+	obs.StatusCalls -= obs.CbCalls
 	return obs
 }
 
